@@ -216,8 +216,9 @@ def step (line : String) : String :=
       (if ok then "ok " else "err ") ++ toHexTok b
     | none => "bad-op"
   | ["dec", h] => withHex h fun s => showRead s (readHeader s)
-  | ["decx", r, k, d, h] => withHex h fun s =>
-    showRead s (readHeaderWith { rejectOversizedMap := r = "1", xattrKeepOrder := k = "1", schilyKeyDecode := d = "1" } s)
+  | ["decx", r, k, d, o, h] => withHex h fun s =>
+    showRead s (readHeaderWith { rejectOversizedMap := r = "1", xattrKeepOrder := k = "1", schilyKeyDecode := d = "1",
+                                 oldSparseBase256 := o = "1" } s)
   | ["canonip", h] => withHex h fun s => let (b, ok) := canonInPlace s; (if ok then "0 " else "-1 ") ++ toHexTok b
   | "s2t" :: ws => s2tOp ws false
   | "s2tents" :: ws => s2tOp ws true                      -- the entries `main` gets: emitted name, `>target` for a hard link
@@ -237,8 +238,9 @@ def step (line : String) : String :=
   | ["iterw", w, h] => match w.toNat? with                          -- the caller reads in requests of `w` bytes
     | some w => if w < 1 ∨ w > 65536 then "bad-op" else withHex h fun s => let (es, e) := iterateWith {} s w; showIter es e
     | none => "bad-op"
-  | ["iterx", r, k, d, h] => withHex h fun s =>
-    let (es, e) := iterateWith { rejectOversizedMap := r = "1", xattrKeepOrder := k = "1", schilyKeyDecode := d = "1" } s; showIter es e
+  | ["iterx", r, k, d, o, h] => withHex h fun s =>
+    let (es, e) := iterateWith { rejectOversizedMap := r = "1", xattrKeepOrder := k = "1", schilyKeyDecode := d = "1",
+                                 oldSparseBase256 := o = "1" } s; showIter es e
   | _ => "bad-op"
 
 def run (_args : List String) : IO Unit := do
